@@ -3909,7 +3909,10 @@ gccVal(Foam foam)
 		cc = gccBInt(foam);
 		break;
 	  case FOAM_SFlo:
-		cc = ccoFloatOf(gcvFloatBuf, foamToSFlo(foam));
+		/* A bare C literal is a double and would make the
+		 * enclosing single float arithmetic double. */
+		cc = ccoCast(gc0TypeId(FOAM_SFlo, emptyFormatSlot),
+			     ccoFloatOf(gcvFloatBuf, foamToSFlo(foam)));
 		break;
 	  case FOAM_DFlo:
 		cc = ccoFloatOf(gcvFloatBuf, foamToDFlo(foam));
